@@ -154,8 +154,9 @@ CLAIMS = {
         "technique": "bounded model checking of the real code (Kani/CBMC): concrete minimal scenarios",
     },
     "C16": {
-        "text": "Minimal scenario of the property's 'in particular' clause, on the real set_header / unset_header / headers / headers_len: "
-                "a cookie the caller adds to a redirected request is effective although the inherited cookie is suppressed.",
+        "text": "Two minimal scenarios on the real set_header / unset_header / headers / headers_len: a cookie the caller adds to a "
+                "redirected request is effective although the inherited cookie is suppressed; a header added in the prepare state is "
+                "still effective (and first) after send_body_despite_method() converted the call.",
         "design_ref": "DESIGN.md §3 C16",
         "note": "one caller-added header; ordering among several additions and with originals not decided (memory)",
         "technique": "bounded model checking of the real code (Kani/CBMC): concrete minimal scenario",
